@@ -1,3 +1,18 @@
+# C11 - local deliveries run as the right user: cdb reader/writer pieces, qmail-newu, nughde_get, spawn child, qmail-getpw.
+#
+# kills: (hand-made mutants of /repo in scratch worktrees, tools/mutant.sh; every one printed VIOLATION with a native replay rc 1)
+#   qmail-lspawn.c nughde_get: break-character test on lower.s[i] instead of lower.s[i - 1]      nughde_get
+#   qmail-lspawn.c nughde_get: drop `if (r == -1) _exit(QLX_CDB)`                                nughde_get
+#   qmail-lspawn.c nughde_get: extension from local + i instead of local + i - 1                 nughde_get
+#   qmail-lspawn.c spawn: prot_uid before prot_gid                                               spawn_child
+#   qmail-lspawn.c spawn: drop `if (!getuid()) _exit(QLX_ROOT)`                                  spawn_child
+#   qmail-lspawn.c spawn: homedir argument taken from the dash field                             spawn_child (NL >= 10)
+#   qmail-getpw.c  accept uid 0; ignore home ownership; skip candidates (--extension twice)      getpw_rules
+#   qmail-newu.c   break characters only for `i >= 3`; simple keys not lower-cased               newu_keys
+#   cdb_seek.c     `++h2 > lenhash`; `(h >> 9) % lenhash`                                        cdb_seek_spec
+#   cdb_seek.c     cdb_bread treats EOF as success                                               cdb_bread
+#   cdb_hash.c     sign-extended key byte                                                        cdb_hash_agree
+#   cdbmake_pack.c third shift by 7                                                              cdb_pack_unpack
 from vlib import Obl, Prog
 
 
